@@ -473,29 +473,26 @@ func getCrashLoopingContainers(obj map[string]interface{}) ([]string, bool, erro
 		return containerNames, found, err
 	}
 	for _, item := range css {
-		cs := item.(map[string]interface{})
-		n, found := cs["name"]
-		if !found {
+		cs, ok := item.(map[string]interface{})
+		if !ok {
 			continue
 		}
-		name := n.(string)
-		s, found := cs["state"]
-		if !found {
+		name, ok := cs["name"].(string)
+		if !ok {
 			continue
 		}
-		state := s.(map[string]interface{})
-
-		ws, found := state["waiting"]
-		if !found {
+		state, ok := cs["state"].(map[string]interface{})
+		if !ok {
 			continue
 		}
-		waitingState := ws.(map[string]interface{})
-
-		r, found := waitingState["reason"]
-		if !found {
+		waitingState, ok := state["waiting"].(map[string]interface{})
+		if !ok {
 			continue
 		}
-		reason := r.(string)
+		reason, ok := waitingState["reason"].(string)
+		if !ok {
+			continue
+		}
 		if reason == "CrashLoopBackOff" {
 			containerNames = append(containerNames, name)
 		}
